@@ -3,10 +3,17 @@ CFG = dict(
     claim="Theorems C20_chain, C20_chain_stream, C20_chain_empty, C20_chain_order, C20_chain_order_stream, C20_chain_transform, "
           "C20_site_none, C20_site_single, C20_site_chain, C20_client_site (coq/Props/C20.v): for every non-empty list of arbitrary "
           "interceptors the interceptor installed by Chain{Unary,Stream}Interceptor is the nesting in registration order around the "
-          "handler; the model is run against the installed interceptors of real servers, the exported recursion and real RPCs on every run.",
+          "handler; stats: C20_stats_client_unary_partial, C20_stats_client_stream_open_failed, C20_stats_client_stream, "
+          "C20_stats_server_unary_partial, C20_stats_server_stream_partial, C20_stats_refused, C20_conn: for every role and every exit "
+          "(client stream: every sequence of calls and arrivals; server stream: every handler program) one Begin first, one End, "
+          "End.Error nil iff success except for io.EOF (C20_stats_end_eof_refuted; findings server-end-eof-nil, client-end-eof-nil); "
+          "the models are run against the installed interceptors, the exported recursion, every exit of the real code and real RPCs on every run.",
     props="Props/C20.v",
     theorems=["C20_chain", "C20_chain_stream", "C20_chain_empty", "C20_chain_order", "C20_chain_order_stream",
-              "C20_chain_transform", "C20_site_none", "C20_site_single", "C20_site_chain", "C20_client_site"],
+              "C20_chain_transform", "C20_site_none", "C20_site_single", "C20_site_chain", "C20_client_site",
+              "C20_stats_client_unary_partial", "C20_stats_client_stream_open_failed", "C20_stats_client_stream",
+              "C20_stats_server_unary_partial", "C20_stats_server_stream_partial", "C20_stats_end_eof_refuted",
+              "C20_stats_refused", "C20_conn"],
     imports=["Model.Chain", "Model.Stats", "Check.C20c"],
     case_type="c20case",
     find_bad_from="find_bad_from",
@@ -16,11 +23,22 @@ CFG = dict(
           dict(test="TestC20E2E", timeout_quick=300, timeout_thorough=1200)],
     reason_text={"1": "implementation output differs from the Gallina model of the code (Model/Chain.v get_chain / chain; Model/Stats.v)",
                  "2": "implementation violates the specification: the observed calls are not the nesting in registration order (Check/C20c.v run_nest)",
-                 "3": "a stage or the handler did not run exactly once, in order (Check/C20c.v spec_once)"},
+                 "3": "a stage or the handler did not run exactly once, in order (Check/C20c.v spec_once)",
+                 "5": "End.Error is nil although the RPC failed at that role, or non-nil although it succeeded (spec_end)",
+                 "6": "not exactly one Begin before every other event / not exactly one End for a finished RPC / events after End (spec_shape)",
+                 "7": "an event carried no tag or the tag of another RPC",
+                 "8": "not exactly one tagged ConnBegin and ConnEnd for a served connection"},
     rule="chain: recording interceptors with behaviours {Pass, ModCtx, ModReq, ModRep, ModErr, Short e, Twice}: ALL lists of length "
          "1..3 (thorough: 4) + seeded lists of length 4..6 + all-pass chains 1..6, handler ok / failing, unary and stream, against "
          "the interceptor installed on a real server; the exported recursion at every index; end to end (real client, Link, real "
-         "server, bubbles) with 0..1 client interceptor x server chains of length 0..6",
+         "server, bubbles) with 0..1 client interceptor x server chains of length 0..6; stats: recording handlers (own context key = tag), "
+         "1..3 per side: client unary every exit (15 scenarios); client stream failed opens + ALL operation sequences of length<=3 "
+         "(thorough 4) over 13 caller/peer operations + seeded longer; server unary 10 scenarios; server stream ALL handler programs of "
+         "length<=3 x {nil, error, io.EOF}; connections; end to end {unary, client-, server-, bidi stream} x {ok, handler error, handler "
+         "EOF, cancel, deadline, read failure, failed open, undecodable metadata, server reset} x 1..3 handlers, both sides",
     assumptions=["interceptors are modelled as functions of (next, argument) into a result that carries their effects (event log); "
-                 "the Go interceptors of the rig are the hand-written twins of Check/C20c.v interp"],
+                 "the Go interceptors of the rig are the hand-written twins of Check/C20c.v interp",
+                 "stats: the model lists are those of lock-step executions (one caller/peer step, quiescence, next step); InPayload of a "
+                 "RecvMsg racing with the read loop's End is outside the model",
+                 "client side of the property text says 0..3 interceptors: dialoption.go offers exactly one per kind (no chaining)"],
 )
